@@ -183,7 +183,91 @@ pub fn c01(tier: Tier) -> i32 {
             case: json!({"kind": "lang", "expression": e.text, "path": path, "expected": want}),
         });
     });
+    // combinators: the documented meaning of `any` is the union of the documented meanings of its
+    // patterns (text, compiled and nested routes), decided on the same product
+    {
+        use rayon::prelude::*;
+        let picks: Vec<&'static str> = tier.pick(
+            vec!["", "a", "*", "a/b", "?", "[!a]", "{a,b}", "<a:1,2>", "(?i)a", "a*", "<a/>b", "**/a", "a/**"],
+            vec!["", "a", "*", "a/b", "?", "[!a]", "{a,b}", "<a:1,2>", "(?i)a", "a*", "<a/>b", "**/a", "a/**", "$", "<a>", "{a,}", "a/**/b", "**", "<*/>", "[a]"],
+        );
+        let pairs: Vec<(usize, usize)> = (0..picks.len()).flat_map(|i| (0..picks.len()).map(move |j| (i, j))).collect();
+        pairs.par_iter().for_each(|(i, j)| {
+            let mut c = Counters::new();
+            let (p, q) = (picks[*i], picks[*j]);
+            let refs: Vec<Option<Reference>> = [p, q]
+                .iter()
+                .map(|t| match syntax::parse(t).ok().map(|ast| lang::reference(&ast, &Deviations::default())) {
+                    Some(Spec::Specified(r)) if !r.u2 && !r.u3 => Some(r),
+                    _ => None,
+                })
+                .collect();
+            let (Some(rp), Some(rq)) = (&refs[0], &refs[1]) else {
+                rep.merge(&c);
+                return;
+            };
+            let union = Reference { regex: format!("(?:{})|(?:{})", rp.regex, rq.regex), u2: false, u3: false };
+            let compiled = |t: &'static str| Glob::new(t).ok();
+            let routes: Vec<(&'static str, Option<wax::Any<'static>>)> = vec![
+                ("text", wax::any([p, q]).ok()),
+                ("compiled", compiled(p).zip(compiled(q)).and_then(|(a, b)| wax::any([a, b]).ok())),
+                (
+                    "nested",
+                    compiled(p)
+                        .zip(compiled(q))
+                        .and_then(|(a, b)| wax::any([a]).ok().zip(wax::any([b]).ok()))
+                        .and_then(|(a, b)| wax::any([a, b]).ok()),
+                ),
+            ];
+            for (route, any) in routes {
+                let Some(any) = any else { continue };
+                let Ok(impl_dfa) = model::dfa_of_any(&any) else { continue };
+                bump(&mut c, "any_pairs_checked", 1);
+                let real = |path: &str| any.is_match(path);
+                let Ok(dis) = first_disagreement(&mut c, &impl_dfa, &union, &[], Some(&real)) else { continue };
+                if let Some((path, _got, want)) = dis {
+                    let a = any.is_match(path.as_str());
+                    if a == want {
+                        bump(&mut c, "unconfirmed_model_witnesses", 1);
+                        continue;
+                    }
+                    // a deviation of one of the patterns alone is that pattern's alarm (and finding)
+                    let alone = [p, q].iter().any(|t| Glob::new(t).map_or(false, |g| {
+                        let r = if *t == p { rp } else { rq };
+                        Dfa::new(&r.regex).map_or(false, |d| d.accepts(&path) != g.is_match(path.as_str()))
+                    }));
+                    if alone {
+                        bump(&mut c, "any_deviation_of_a_member_alone", 1);
+                        continue;
+                    }
+                    rep.alarm(Alarm {
+                        class: None,
+                        key: format!("any {} {:?} {:?}", route, p, q),
+                        msg: format!("any([{:?}, {:?}]) ({} route): is_match({:?}) = {} but the union of the documented meanings says {}", p, q, route, path, a, want),
+                        case: json!({"kind": "lang_any", "patterns": [p, q], "route": route, "path": path, "expected": want}),
+                    });
+                }
+            }
+            rep.merge(&c);
+        });
+    }
     finish_mc(&rep, &opts, "every built expression of the tier's program space whose documented meaning is specified (U4/U5 excluded and counted); all reachable states of implDFA x referenceDFA x (U1,U2,U3) monitor; every reached state replayed through the public is_match")
+}
+
+pub fn replay_lang_any(case: &serde_json::Value) -> bool {
+    let pats: Vec<String> = case["patterns"].as_array().unwrap().iter().map(|p| p.as_str().unwrap().to_string()).collect();
+    let path = case["path"].as_str().unwrap();
+    let expected = case["expected"].as_bool().unwrap();
+    let got = match case["route"].as_str().unwrap_or("text") {
+        "text" => wax::any(pats.iter().map(|s| s.as_str())).unwrap().is_match(path),
+        "compiled" => wax::any(pats.iter().map(|s| Glob::new(s).unwrap())).unwrap().is_match(path),
+        _ => wax::any(pats.iter().map(|s| wax::any([Glob::new(s).unwrap()]).unwrap())).unwrap().is_match(path),
+    };
+    println!("any({:?}).is_match({:?}) = {}; union of the documented meanings: {}", pats, path, got, expected);
+    for p in &pats {
+        println!("  `{}`.is_match({:?}) = {}", p, path, Glob::new(p).unwrap().is_match(path));
+    }
+    got != expected
 }
 
 pub fn replay_lang(case: &serde_json::Value) -> bool {
